@@ -411,7 +411,7 @@ BIN_HOSTILE = [
 SP_DYADIC = [(0.5, 0.0), (1.0, 0.0), (2.0, -1.0), (0.25, 0.125)]
 SP_HOSTILE = [(0.1, 0.0), (0.3, 0.1), (1.0 / 3, 0.0), (0.7, -0.2), (0.1, 1e6 + 0.1), (1.0, 1e15)]
 CENTERS_DYADIC = [[0.0, 1.0, 3.0], [-1.0, 1.0], [0.5, 1.5, 2.5, 10.0], [3.0, 0.0, 1.0]]
-CENTERS_HOSTILE = [[0.1, 0.2, 0.3, 0.7], [1e6 + 0.1, 1e6 + 0.2], [-0.3, 0.3, 1.0 / 3]]
+CENTERS_HOSTILE = [[0.1, 0.2, 0.3, 0.7], [1e6 + 0.1, 1e6 + 0.2], [-0.3, 0.3, 1.0 / 3], [1.0, 2.0, 2.0, 3.0]]  # the last: a repeated centre (quantiles of discrete data)
 EDGES_DYADIC = [[0.0, 1.0, 3.0], [-1.0], [0.5, 1.5], [0.0, 0.25, 0.5, 0.75], []]
 EDGES_HOSTILE = [[0.1, 0.2, 0.3], [1.0 / 3, 2.0 / 3], [1e6 + 0.1, 1e6 + 0.7]]
 
@@ -559,8 +559,13 @@ def gen_config(rng, k, o, small=False):
         return {"centers": list(rng.choice(CENTERS_HOSTILE if hostile else CENTERS_DYADIC))}
     if k in ("IrregularlyBin", "Stack"):
         if drawn:
-            return {"edges": sorted(rng.sample(DEC, rng.randint(1, 4)))}
-        return {"edges": list(rng.choice(EDGES_HOSTILE if hostile else EDGES_DYADIC))}
+            es = rng.sample(DEC, rng.choice([1, 2, 3, 4, 4, 9, 10]))  # also long lists: code may switch paths on the bin count
+            # a Stack keeps its cuts in the order given and treats each one on its own: any order is legitimate there
+            return {"edges": es if (k == "Stack" and rng.random() < 0.5) else sorted(es)}
+        es = list(rng.choice(EDGES_HOSTILE if hostile else EDGES_DYADIC))
+        if k == "Stack" and len(es) > 1 and rng.random() < 0.3:
+            rng.shuffle(es)
+        return {"edges": es}
     return {}
 
 
